@@ -341,7 +341,7 @@ fn part_a(ctx: &mut Ctx) {
     for (p, w) in [(3u128, 16u32), (251, 16), (257, 16), (65407, 16), (65267, 16), (4294934513, 32), (4293918721, 32), (18446744071562067949, 64), (18446744069414584321, 64)] {
         assert!(split_ok(p, w), "split-word precondition violated for {p}");
     }
-    let n = ctx.budget(200_000, 20_000_000);
+    let n = ctx.budget(1_000_000, 20_000_000);
     run_primes!(ctx, sampled, Fp32, "single-u32", [4293918721, 4294967291, 2147483647, 2147483659, 65537], n);
     run_primes!(ctx, sampled, Fp32Split, "split-u32", [4293918721, 4294934513, 4294934491, 2147483647, 2147483659, 65537], n);
     run_primes!(ctx, sampled, Fp64Split, "split-u64", [
@@ -744,7 +744,7 @@ fn part_b_field<F: Model>(ctx: &mut Ctx) -> Vec<BigUint> {
         }
     }
     // Random pairs (uniform, and uniform x lattice).
-    let n = ctx.budget(20_000, 10_000_000) / ctx.nshards as u64;
+    let n = ctx.budget(100_000, 10_000_000) / ctx.nshards as u64;
     let nbytes = F::ENCODED_SIZE + 8;
     for k in 0..n {
         let a = BigUint::from_bytes_le(&rng.bytes(nbytes)) % &p;
